@@ -7,8 +7,16 @@ lean/LenaModel/Props/C13.lean (lemmas in lean/LenaModel/Lemmas/C13Dict.lean, C13
 
 A case is {"tree": T, "flow": [ctx, ...], "variants": [T', ...]}:
   T  ::= {"k":"seq","kind":"Sequence"|"Source"|"tuple","c":[T...]} | {"k":"split","c":[T(seq)...]} | leaf
-  leaf ::= {"k":"set","key":"a.x","val":1|"s"|"{{a}}_f"} | {"k":"store"} | {"k":"ucfs"} | {"k":"mkf","fmt":..}
-         | {"k":"write","fmt":..} | {"k":"cache","fmt":..} | {"k":"data"} | {"k":"src"}
+  leaf ::= {"k":"set","key":"a.x","val":1|"s"|"{{a}}_f"} | {"k":"store"} | {"k":"ucfs"}
+         | {"k":"mkf","fmt":filename|None[,"dirname":..,"fileext":..,"prefix":..,"suffix":..,"overwrite":bool]}
+         | {"k":"write","fmt":..} | {"k":"cache","fmt":..} | {"k":"data"} | {"k":"mut","key":..,"val":..} | {"k":"src"}
+         | {"k":"fc"} (a FillCompute element) | {"k":"fr"} (a FillRequest element)
+Further kinds of "seq" nodes: "FillComputeSeq" / "FillRequestSeq" (constructed directly; exactly one fc / fr leaf,
+only callable or data-less leaves before it), "tuple" with an fc / fr leaf (Split turns it into a FillComputeSeq /
+FillRequestSeq), "elem" (a Split branch given as one bare element, which Split wraps into a Sequence); a bare fc / fr
+leaf may be a Split branch itself (Split keeps it as it is: it has no static context).
+A case may have "precache": true: the tree is constructed once, files are created under the names its Caches
+derived, and the tree is constructed again (Split then meets existing caches: `alter_sequence` / Cache hoisting).
 The top node is a Sequence or a Source.  A "tuple" node is a Split branch given as a bare tuple (Split wraps
 it in a Sequence).  A Source contains exactly one `src` leaf, which is its first data element.
 """
@@ -56,6 +64,8 @@ THEOREMS = [
     "Lena.C13.ctxAt_child",
     "Lena.C13.foldL_leaves",
     "Lena.C13.run_values_independent",
+    "Lena.C13.split_transparent_branch",
+    "Lena.C13.redelivery_idempotent",
 ]
 CASE_TIMEOUT = 20
 TRUSTED = [
@@ -220,15 +230,28 @@ def preorder(tree):
     return out
 
 
-def ref_name(node, seen, prev=None):
-    """the name a consumer derives from the static context `seen` (None: the field cannot be resolved)"""
-    tpl = parse_template(node["fmt"])
-    if tpl is None:
-        return None if node["k"] == "mkf" and False else node["fmt"]
-    try:
-        return ref_format(tpl, seen)
-    except RefKeyError:
-        return None
+MKF_KEYS = ("prefix", "suffix", "filename", "dirname", "fileext")      # the order of MakeFilename._methods
+
+
+def mkf_methods(node):
+    """[(output key, format string)] of a mkf node in the order MakeFilename applies them"""
+    out = []
+    for key in MKF_KEYS:
+        fmt = node.get("fmt") if key == "filename" else node.get(key)
+        if fmt is not None:
+            out.append((key, fmt))
+    return out
+
+
+def node_templates(node):
+    """the format strings of a node (set value, consumer names)"""
+    if node["k"] == "set":
+        return [node["val"]] if isinstance(node["val"], str) else []
+    if node["k"] == "mkf":
+        return [f for _, f in mkf_methods(node)]
+    if node["k"] in ("write", "cache"):
+        return [node["fmt"]]
+    return []
 
 
 class Ref:
@@ -268,23 +291,26 @@ class Ref:
         if k in ("store", "ucfs"):
             self.exp[idx] = {"k": k, "seen": copy.deepcopy(ctx)}
             return ctx
-        if k in ("mkf", "write", "cache"):
+        if k == "mkf":
+            # what it was given, and the output keys it derives from that alone
+            self.exp[idx] = {"k": k, "seen": copy.deepcopy(ctx),
+                             "name": ref_mkf_call(node, ctx, {}).get("output", {})}
+            return ctx
+        if k in ("write", "cache"):
             tpl = parse_template(node["fmt"])
             rec = {"k": k}
-            if k == "mkf":
-                rec["seen"] = copy.deepcopy(ctx)
             if tpl is None:
                 rec["name"] = node["fmt"]
             else:
                 try:
                     rec["name"] = ref_format(tpl, ctx)
                 except RefKeyError:
-                    # MakeFilename leaves the name unset; Write and Cache keep the unformatted string
-                    rec["name"] = None if k == "mkf" else node["fmt"]
+                    # Write and Cache keep the unformatted string
+                    rec["name"] = node["fmt"]
             self.exp[idx] = rec
             return ctx
-        if k in ("data", "src", "mut"):
-            self.exp[idx] = {"k": k}
+        if k in ("data", "src", "mut", "fc", "fr"):
+            self.exp[idx] = {"k": "data" if k in ("fc", "fr") else k}
             return ctx
         if k == "seq":
             children = node["c"]
@@ -301,6 +327,11 @@ class Ref:
         if k == "split":
             outs, err = [], None
             for b in node["c"]:
+                if b["k"] in ("fc", "fr"):
+                    # a branch that is a bare element has no static context at all: it is transparent
+                    # ("not intersecting the others with {}", split.py)
+                    self.fold(b, copy.deepcopy(ctx))
+                    continue
                 try:
                     outs.append(self.fold(b, copy.deepcopy(ctx)))
                 except RefKeyError as e:
@@ -320,34 +351,48 @@ class Unmodelled(Exception):
 
 
 def ref_mkf_call(node, seen, c):
-    """documented behaviour of MakeFilename(fmt) on a value with context c (returns the new context):
-    an existing output.filename is kept; otherwise the name is formatted from the static context seen, the
-    run-time context taking precedence key by key; output.prefix / output.suffix are added to the name and
-    removed; if the name cannot be formatted nothing changes"""
+    """documented behaviour of MakeFilename(filename, dirname, fileext, prefix, suffix, overwrite) on a value with
+    context c (returns the new context).  For each given argument in the order prefix, suffix, filename, dirname,
+    fileext: an existing output.filename/dirname/fileext is kept unless overwrite; the string is formatted from the
+    static context seen, the run-time context taking precedence key by key, and nothing changes if it cannot be
+    formatted; a prefix is prepended before an existing output.prefix and a suffix appended after an existing
+    output.suffix unless overwrite; output.prefix / output.suffix are added to a file name and removed."""
     c = copy.deepcopy(c)
-    out = c.get("output")
-    if out is not None and not isinstance(out, dict):
-        raise Unmodelled()
-    if out is not None and "filename" in out:
-        return c
-    full = dict(seen)
-    full.update(c)
-    tpl = parse_template(node["fmt"])
-    try:
-        name = node["fmt"] if tpl is None else ref_format(tpl, full)
-    except RefKeyError:
-        return c
-    for key in ("prefix", "suffix"):
-        if out is not None and key in out and not isinstance(out[key], str):
-            raise Unmodelled()
-    pre = out.get("prefix", "") if out else ""
-    suf = out.get("suffix", "") if out else ""
-    name = pre + name + suf
-    if pre:
-        del out["prefix"]
-    if suf:
-        del out["suffix"]
-    return ref_update(c, {"output": {"filename": name}})
+    ow = bool(node.get("overwrite"))
+    for key, fmt in mkf_methods(node):
+        out = c.get("output")
+        if out is not None and not isinstance(out, dict):
+            if key in ("filename", "dirname", "fileext"):
+                raise Unmodelled()
+            out = None
+        if key in ("filename", "dirname", "fileext") and out is not None and key in out and not ow:
+            continue
+        full = dict(seen)
+        full.update(c)
+        tpl = parse_template(fmt)
+        try:
+            name = fmt if tpl is None else ref_format(tpl, full)
+        except RefKeyError:
+            continue
+        outd = out if out is not None else {}
+        if key in ("prefix", "suffix"):
+            ex = outd.get(key)
+            if ex is not None and not isinstance(ex, str):
+                raise Unmodelled()
+            if ex and not ow:
+                name = name + ex if key == "prefix" else ex + name
+        elif key == "filename":
+            for k2 in ("prefix", "suffix"):
+                if k2 in outd and not isinstance(outd[k2], str):
+                    raise Unmodelled()
+            pre, suf = outd.get("prefix", ""), outd.get("suffix", "")
+            name = pre + name + suf
+            if pre:
+                del outd["prefix"]
+            if suf:
+                del outd["suffix"]
+        c = ref_update(c, {"output": {key: name}})
+    return c
 
 
 SRC_FLOW = [{"r": 0}, {"r": 1, "a": "src"}]
@@ -362,7 +407,7 @@ def ref_run(node, exp, idx, flow):
         return [(d, ref_update(c, exp[idx]["seen"])) for d, c in flow], idx + 1
     if k == "mkf":
         return [(d, ref_mkf_call(node, exp[idx]["seen"], c)) for d, c in flow], idx + 1
-    if k in ("set", "store", "write", "cache", "data"):
+    if k in ("set", "store", "write", "cache", "data", "fc", "fr"):
         return flow, idx + 1
     if k == "mut":
         return [(d, ref_update(c, ref_path_dict(node["key"], node["val"]))) for d, c in flow], idx + 1
@@ -398,6 +443,49 @@ class _Src(object):
 
 def _ident(val):
     return val
+
+
+_PRECACHE = [False]
+
+
+class _FC(object):
+    """a FillCompute element (it also has `run`, so that a plain Sequence accepts it)"""
+
+    def __init__(self):
+        self._vals = []
+
+    def fill(self, value):
+        self._vals.append(value)
+
+    def compute(self):
+        for v in self._vals:
+            yield v
+
+    def run(self, flow):
+        for v in flow:
+            yield v
+
+
+class _FR(object):
+    """a FillRequest element"""
+
+    def __init__(self):
+        self._vals = []
+
+    def fill(self, value):
+        self._vals.append(value)
+
+    def request(self):
+        vals, self._vals = self._vals, []
+        for v in vals:
+            yield v
+
+    def reset(self):
+        self._vals = []
+
+    def run(self, flow):
+        for v in flow:
+            yield v
 
 
 class _Mutator(object):
@@ -445,15 +533,22 @@ def build(node, objs):
     elif k == "ucfs":
         o = lena.meta.UpdateContextFromStatic()
     elif k == "mkf":
-        o = lena.output.MakeFilename(node["fmt"])
+        o = lena.output.MakeFilename(filename=node.get("fmt"), dirname=node.get("dirname"), fileext=node.get("fileext"),
+                                     prefix=node.get("prefix"), suffix=node.get("suffix"),
+                                     overwrite=bool(node.get("overwrite")))
     elif k == "write":
         o = lena.output.Write(node["fmt"], verbose=False)
     elif k == "cache":
         # recompute=True: an existing cache file (of another Cache of the tree with the same name) is never
         # loaded instead of the flow; that is C18's subject
-        o = lena.flow.Cache(node["fmt"], recompute=True)
+        # (a "precache" case is about existing caches at construction time and runs no flow: recompute=False)
+        o = lena.flow.Cache(node["fmt"], recompute=not _PRECACHE[0])
     elif k == "data":
         o = _ident
+    elif k == "fc":
+        o = _FC()
+    elif k == "fr":
+        o = _FR()
     elif k == "mut":
         o = _Mutator(node["key"], node["val"])
     elif k == "src":
@@ -464,6 +559,13 @@ def build(node, objs):
             o = lena.core.Sequence(*cs)
         elif node["kind"] == "Source":
             o = lena.core.Source(*cs)
+        elif node["kind"] == "FillComputeSeq":
+            o = lena.core.FillComputeSeq(*cs)
+        elif node["kind"] == "FillRequestSeq":
+            # the keyword arguments that Split uses when it makes a FillRequestSeq
+            o = lena.core.FillRequestSeq(*cs, bufsize=1, reset=False, buffer_input=True)
+        elif node["kind"] == "elem":
+            o = cs[0]
         else:
             o = tuple(cs)
     elif k == "split":
@@ -473,9 +575,10 @@ def build(node, objs):
             cs.append(build(c, objs))
         # bufsize=None: the whole flow is one buffer (what the model's `run` describes)
         o = lena.core.Split(cs, bufsize=None)
-        # a tuple branch became a Sequence inside the Split: observe that one
+        # a tuple (bare element) branch became a Sequence / FillComputeSeq / FillRequestSeq inside the Split:
+        # observe that one
         for b, sl, made in zip(node["c"], slots, o._seqs):
-            if b["kind"] == "tuple":
+            if b["k"] == "seq" and b["kind"] in ("tuple", "elem"):
                 objs[sl] = made
     else:
         raise ValueError(k)
@@ -498,7 +601,7 @@ def read_state(tree, objs):
         elif k == "mkf":
             res = o((0, {}))
             recs.append({"k": k, "seen": copy.deepcopy(getattr(o, "_context", {})),
-                         "name": res[1].get("output", {}).get("filename")})
+                         "name": copy.deepcopy(res[1].get("output", {}))})
         elif k == "write":
             recs.append({"k": k, "name": o.output_directory})
         elif k == "cache":
@@ -506,7 +609,7 @@ def read_state(tree, objs):
         elif k in ("seq", "split"):
             recs.append({"k": k, "get": _get(o)})
         else:
-            recs.append({"k": k})
+            recs.append({"k": "data" if k in ("fc", "fr") else k})
     return recs
 
 
@@ -515,6 +618,16 @@ def _run_tree(tree, flow_ctxs):
     copied the moment it comes out), read the state of every element again"""
     objs = []
     top = build(tree, objs)
+    if _PRECACHE[0]:
+        # "the second run of the script": files exist under the names the Caches derived; construct again
+        for node, o in zip(preorder(tree), objs):
+            if node["k"] == "cache" and "{" not in o._filename:
+                d = os.path.dirname(o._filename)
+                if d:
+                    os.makedirs(d, exist_ok=True)
+                open(o._filename, "wb").close()
+        objs = []
+        top = build(tree, objs)
     recs = read_state(tree, objs)
     out, after = None, None
     if flow_ctxs is not None:
@@ -538,6 +651,7 @@ def run_impl(case):
     cwd = os.getcwd()
     tmp = tempfile.mkdtemp(prefix="c13_", dir="/dev/shm" if os.path.isdir("/dev/shm") else None)
     os.chdir(tmp)
+    _PRECACHE[0] = bool(case.get("precache"))
     try:
         recs, out, after = _run_tree(case["tree"], case.get("flow"))
         # the state after the run is kept only if it differs from the state before it (memory)
@@ -639,7 +753,7 @@ def oracle(case, res):
 # ------------------------------------------------------------------------------------------------
 # model side
 
-OUT_KEYS = ["output", "filename", "prefix", "suffix"]
+OUT_KEYS = ["output", "filename", "prefix", "suffix", "dirname", "fileext"]
 
 
 def _ctx_keys(c, acc):
@@ -652,18 +766,11 @@ def _ctx_keys(c, acc):
 def alphabet(case):
     """the key alphabet of the case: every key (component) that can occur in a context, sorted"""
     acc = set(OUT_KEYS)
-    for t in [case["tree"]]:
-        for node in preorder(t):
-            if node["k"] == "set":
-                acc.update(p for p in node["key"].split("."))
-                tpl = parse_template(node["val"]) if isinstance(node["val"], str) else None
-            elif node["k"] in ("mkf", "write", "cache"):
-                tpl = parse_template(node["fmt"])
-            else:
-                tpl = None
-                if node["k"] == "mut":
-                    acc.update(node["key"].split("."))
-            for f in (tpl or [])[1::2]:
+    for node in preorder(case["tree"]):
+        if node["k"] in ("set", "mut"):
+            acc.update(node["key"].split("."))
+        for t in node_templates(node):
+            for f in (parse_template(t) or [])[1::2]:
                 acc.update(p for p in f.split(".") if p)
     for c in (case.get("flow") or []) + SRC_FLOW:
         _ctx_keys(c, acc)
@@ -684,9 +791,16 @@ def _enc_leaf(node, ix):
         tpl = parse_template(v) if isinstance(v, str) else None
         return {"k": "set", "key": [ix[p] for p in node["key"].split(".")], "val": v if tpl is None else None,
                 "tpl": None if tpl is None else _enc_tpl(tpl, ix)}
-    if k in ("mkf", "write", "cache"):
-        tpl = parse_template(node["fmt"])
-        return {"k": k, "tpl": _enc_tpl(tpl, ix) if tpl is not None else [node["fmt"]]}
+    def enc(fmt):
+        tpl = parse_template(fmt)
+        return _enc_tpl(tpl, ix) if tpl is not None else [fmt]
+    if k == "mkf":
+        return {"k": k, "methods": [[key, enc(fmt)] for key, fmt in mkf_methods(node)],
+                "overwrite": bool(node.get("overwrite"))}
+    if k in ("write", "cache"):
+        return {"k": k, "tpl": enc(node["fmt"])}
+    if k in ("fc", "fr"):
+        return {"k": "data"}
     if k == "mut":
         return {"k": k, "key": [ix[p] for p in node["key"].split(".")], "val": node["val"]}
     return {"k": k}
@@ -716,8 +830,6 @@ def _strip(node, rec):
         rec["get"] = {"e": g["e"]} if g["cls"] == "LenaKeyError" else {"other": g["cls"]}
     if node["k"] in ("write", "cache"):
         rec["name"] = {"unformatted": True} if rec["name"] == node["fmt"] else rec["name"]
-    if node["k"] == "mkf" and rec["name"] is None:
-        rec["name"] = {"absent": True}
     return rec
 
 
@@ -739,7 +851,16 @@ def compare(case, res, replies):
     if m["fold"] != want:
         return f"model fold {m['fold']} vs reference prefix fold {want}"
     nodes = preorder(tree)
+    # closed form (final / histOfCone) against the transcribed protocol: null = equal (build_eq_final, final_at)
+    for fld in ("closed", "closed_at"):
+        if m.get(fld) is not None:
+            for i, (a, b) in enumerate(zip(m[fld], m["nodes"])):
+                if a != b:
+                    return f"node #{i}: model {fld} form {a} vs model protocol {b} (build_eq_final / final_at)"
+            return f"model {fld} form differs from the model protocol in length"
     for i, (node, sp) in enumerate(zip(nodes, m["spec"])):
+        if sp == "=":
+            sp = m["nodes"][i]
         exp = ref.exp.get(i)
         if (exp is None) != (sp is None):
             return f"node #{i}: model spec (ctxAt) {sp} vs reference fold {exp}: one of them is undefined"
@@ -798,6 +919,25 @@ def _tpl(rng):
     return "p{{%s}}-{{%s}}" % (f, rng.choice(FIELDS))
 
 
+def rand_mkf(rng):
+    """MakeFilename with a file name only (mostly), or any legal combination of filename / dirname / fileext /
+    prefix / suffix (a file name excludes prefix and suffix), sometimes overwriting"""
+    r = rng.random()
+    if r < 0.6:
+        return {"k": "mkf", "fmt": _tpl(rng) if rng.random() < 0.9 else "plain"}
+    node = {"k": "mkf", "fmt": None}
+    if r < 0.8:
+        node["fmt"] = _tpl(rng)
+        keys = [k for k in ("dirname", "fileext") if rng.random() < 0.6]
+    else:
+        keys = [k for k in ("prefix", "suffix", "dirname", "fileext") if rng.random() < 0.5] or ["prefix"]
+    for k in keys:
+        node[k] = {"prefix": "P", "suffix": "S", "dirname": "D", "fileext": "e"}[k] + (_tpl(rng) if rng.random() < 0.8 else "")
+    if rng.random() < 0.25:
+        node["overwrite"] = True
+    return node
+
+
 def rand_leaf(rng, pformat=0.3):
     r = rng.random()
     if r < 0.42:
@@ -808,11 +948,12 @@ def rand_leaf(rng, pformat=0.3):
     if r < 0.68:
         return {"k": "ucfs"}
     if r < 0.78:
-        return {"k": "mkf", "fmt": _tpl(rng) if rng.random() < 0.9 else "plain"}
+        return rand_mkf(rng)
     if r < 0.85:
         return {"k": "write", "fmt": "o_" + _tpl(rng) if rng.random() < 0.9 else "outdir"}
     if r < 0.92:
-        return {"k": "cache", "fmt": "c_" + _tpl(rng) + ".pkl" if rng.random() < 0.9 else "c.pkl"}
+        return {"k": "cache", "fmt": ("d/" if rng.random() < 0.1 else "") +
+                ("c_" + _tpl(rng) + ".pkl" if rng.random() < 0.9 else "c.pkl")}
     if r < 0.96:
         return {"k": "mut", "key": rng.choice(KEYS), "val": rng.choice(CONSTS)}
     return {"k": "data"}
@@ -821,8 +962,48 @@ def rand_leaf(rng, pformat=0.3):
 NO_DATA = ("set", "store")
 
 
+ANCHOR = {"FillComputeSeq": "fc", "FillRequestSeq": "fr"}
+
+
+def anchor_of(node):
+    """the leaf kind that a sequence node cannot lose: src of a Source, the fill/compute (fill/request) element of a
+    FillComputeSeq / FillRequestSeq or of a tuple that Split turns into one"""
+    if node["k"] != "seq":
+        return None
+    if node["kind"] == "Source":
+        return "src"
+    if node["kind"] in ANCHOR:
+        return ANCHOR[node["kind"]]
+    if node["kind"] == "tuple":
+        for c in node["c"]:
+            if c["k"] in ("fc", "fr"):
+                return c["k"]
+    return None
+
+
+def static_only(tree):
+    """True if the tree contains a fill/compute or fill/request element: its run-time behaviour (fill, compute,
+    request) is the subject of C03/C05/C16; only its static context is checked here"""
+    return any(nd["k"] in ("fc", "fr") for nd in preorder(tree))
+
+
 def rand_seq(rng, depth, kind, nmax=4, pformat=0.3):
     """a sequence node of the given kind with children of depth < depth"""
+    if kind == "elem":
+        while True:
+            leaf = rand_leaf(rng, pformat)
+            if leaf["k"] != "data" or rng.random() < 0.3:
+                return {"k": "seq", "kind": "elem", "c": [leaf]}
+    if kind in ANCHOR or kind == "tuple-fc":
+        # only callable or data-less elements can stand before the fill/compute (fill/request) element
+        pre = []
+        for _ in range(rng.randint(0, 2)):
+            leaf = rand_leaf(rng, pformat)
+            if leaf["k"] in ("set", "store", "data", "mkf", "mut"):
+                pre.append(leaf)
+        anchor = {"k": ANCHOR.get(kind) or rng.choice(["fc", "fc", "fr"])}
+        post = [rand_tree(rng, depth - 1, pformat) for _ in range(rng.randint(0, nmax))]
+        return {"k": "seq", "kind": "tuple" if kind == "tuple-fc" else kind, "c": pre + [anchor] + post}
     n = rng.randint(0, nmax)
     cs = [rand_tree(rng, depth - 1, pformat) for _ in range(n)]
     if kind == "Source":
@@ -843,7 +1024,11 @@ def rand_tree(rng, depth, pformat=0.3):
     nb = rng.randint(0, 3) if rng.random() < 0.1 else rng.randint(1, 3)
     bs = []
     for _ in range(nb):
-        kind = rng.choice(["Sequence", "Sequence", "Sequence", "tuple", "Source"])
+        kind = rng.choice(["Sequence", "Sequence", "Sequence", "Sequence", "tuple", "Source", "Source", "elem",
+                           "FillComputeSeq", "FillRequestSeq", "tuple-fc", "bare"])
+        if kind == "bare":
+            bs.append({"k": rng.choice(["fc", "fr"])})
+            continue
         b = rand_seq(rng, depth - 1, kind, nmax=3, pformat=pformat)
         if kind == "tuple" and not b["c"]:
             b["kind"] = "Sequence"
@@ -852,7 +1037,8 @@ def rand_tree(rng, depth, pformat=0.3):
 
 
 def rand_top(rng, depth=3, pformat=0.3):
-    kind = "Source" if rng.random() < 0.3 else "Sequence"
+    r = rng.random()
+    kind = "Source" if r < 0.3 else ("FillComputeSeq" if r < 0.36 else "Sequence")
     t = rand_seq(rng, depth, kind, nmax=5, pformat=pformat)
     return t
 
@@ -866,12 +1052,13 @@ def mutate_after(rng, tree, path, pformat):
         if node["k"] == "seq":
             keep = node["c"][:i + 1]
             tail = node["c"][i + 1:]
-            if node["kind"] == "Source" and not any(c["k"] == "src" for c in keep):
-                # the source element of a Source comes later: keep the elements up to it (a Source
-                # without a first data element that generates the flow cannot be constructed at all)
-                j = next(j for j, c in enumerate(tail) if c["k"] == "src")
+            anc = anchor_of(node)
+            if anc and not any(c["k"] == anc for c in keep):
+                # the source (fill/compute, fill/request) element comes later: keep the elements up to it (the
+                # sequence cannot be constructed without it, and only certain leaves can stand before it)
+                j = next(j for j, c in enumerate(tail) if c["k"] == anc)
                 keep, tail = keep + tail[:j + 1], tail[j + 1:]
-            r = rng.random()
+            r = rng.random() if node["kind"] != "elem" else 1.0
             if r < 0.4:
                 tail = [rand_tree(rng, 1, pformat) for _ in range(rng.randint(0, 2))]
             elif r < 0.7 and tail:
@@ -883,8 +1070,9 @@ def mutate_after(rng, tree, path, pformat):
         else:
             for j in range(len(node["c"])):
                 if j != i and rng.random() < 0.7:
-                    kind = node["c"][j]["kind"]
-                    node["c"][j] = rand_seq(rng, 1, kind if kind != "tuple" else "Sequence", nmax=3, pformat=pformat)
+                    kind = node["c"][j].get("kind", "Sequence")
+                    node["c"][j] = rand_seq(rng, 1, kind if kind not in ("tuple", "elem") else "Sequence", nmax=3,
+                                            pformat=pformat)
             if rng.random() < 0.3:
                 node["c"].append(rand_seq(rng, 1, "Sequence", nmax=2, pformat=pformat))
         node = node["c"][i]
@@ -909,16 +1097,12 @@ def _renders_dict(tree, flow=None):
             parts = nd["key"].split(".")
             for i in range(1, len(parts)):
                 dicts.add(".".join(parts[:i]))
-            tpl = parse_template(nd["val"]) if isinstance(nd["val"], str) else None
-        elif nd["k"] in ("mkf", "write", "cache"):
-            tpl = parse_template(nd["fmt"])
-        else:
-            tpl = None
-        for f in (tpl or [])[1::2]:
-            f = ".".join(p for p in f.split(".") if p)
-            fields.add(f)
-            if nd["k"] == "mkf":
-                mkf_fields.add(f)
+        for t in node_templates(nd):
+            for f in (parse_template(t) or [])[1::2]:
+                f = ".".join(p for p in f.split(".") if p)
+                fields.add(f)
+                if nd["k"] == "mkf":
+                    mkf_fields.add(f)
     if "" in fields or fields & dicts:
         return True
     if flow is not None:
@@ -951,7 +1135,7 @@ FLOWS = [[{"r": 0}], [{"r": 0}, {"a": "rt", "r": 1}], [], [{"output": {"filename
 def _flow_for(tree, flow):
     """the flow to run through the tree, or None: two Caches could write the same file (C18's subject), or the
     flow would make an element render a dictionary"""
-    if sum(1 for nd in preorder(tree) if nd["k"] == "cache") > 1:
+    if sum(1 for nd in preorder(tree) if nd["k"] == "cache") > 1 or static_only(tree):
         return None
     if _renders_dict(tree, flow):
         return None
@@ -964,6 +1148,9 @@ def rand_case(rng, depth=3, pformat=0.3, nvariants=2):
         if _renders_dict(tree):
             continue
         case = {"tree": tree, "flow": _flow_for(tree, rng.choice(FLOWS))}
+        if rng.random() < 0.15 and any(nd["k"] == "cache" for nd in preorder(tree)):
+            # the second run of the script: the caches exist when the tree is constructed
+            case["precache"], case["flow"] = True, None
         ps = [p for p in paths(tree) if cone(tree, p)[1]["k"] in PROBES]
         vs = []
         if ps and nvariants:
@@ -992,6 +1179,52 @@ EX_LEAVES_MORE = [
     {"k": "cache", "fmt": "c_{{a}}.pkl"},
     {"k": "mut", "key": "a.y", "val": 7},
 ]
+
+
+def seqtype_cases():
+    """Directed family for the other LenaSequences and the other ways to give a Split branch: a nested Sequence with
+    a SetContext, a later SetContext, probes after it, placed after (and, where allowed, data-less elements before)
+    the fill/compute or fill/request element of a FillComputeSeq, a FillRequestSeq, a tuple branch that Split
+    converts, and bare-element branches; stand-alone, as the only branch of a Split that starts a Sequence, next to a
+    plain branch, and below a SetContext."""
+    out = []
+    probes = [[{"k": "ucfs"}], [{"k": "store"}, {"k": "mkf", "fmt": "{{a}}_{{b}}", "dirname": "D{{b}}"}],
+              [{"k": "write", "fmt": "o_{{a}}"}, {"k": "cache", "fmt": "c_{{b}}.pkl"}]]
+    for anchor, kinds in (("fc", ("FillComputeSeq", "tuple")), ("fr", ("FillRequestSeq", "tuple"))):
+        for kind in kinds:
+            for pr in probes:
+                for pre in ([], [{"k": "set", "key": "c", "val": 0}, {"k": "data"}]):
+                    body = pre + [{"k": anchor}, {"k": "seq", "kind": "Sequence", "c": [{"k": "set", "key": "b", "val": 2}]},
+                                  {"k": "set", "key": "a", "val": 1}] + pr
+                    node = {"k": "seq", "kind": kind, "c": body}
+                    tops = [[{"k": "split", "c": [node]}],
+                            [{"k": "split", "c": [node, {"k": "seq", "kind": "Sequence", "c": [{"k": "store"}]}]}, {"k": "store"}],
+                            [{"k": "set", "key": "z", "val": 5}, {"k": "split", "c": [node]}, {"k": "ucfs"}]]
+                    if kind != "tuple":
+                        out.append({"tree": copy.deepcopy(node), "flow": None, "variants": []})
+                    for cs in tops:
+                        out.append({"tree": {"k": "seq", "kind": "Sequence", "c": copy.deepcopy(cs)}, "flow": None,
+                                    "variants": []})
+    # branches given as bare elements
+    for leaf in ({"k": "store"}, {"k": "ucfs"}, {"k": "set", "key": "b", "val": 2}, {"k": "mkf", "fmt": "{{a}}"},
+                 {"k": "write", "fmt": "o_{{a}}"}):
+        for other in ({"k": "fc"}, {"k": "seq", "kind": "Sequence", "c": [{"k": "set", "key": "b", "val": 2}]},
+                      {"k": "seq", "kind": "elem", "c": [{"k": "data"}]}):
+            t = {"k": "seq", "kind": "Sequence", "c": [
+                {"k": "set", "key": "a", "val": 1},
+                {"k": "split", "c": [{"k": "seq", "kind": "elem", "c": [copy.deepcopy(leaf)]}, copy.deepcopy(other)]},
+                {"k": "store"}]}
+            out.append({"tree": t, "flow": _flow_for(t, FLOWS[1]), "variants": []})
+    # existing caches when the tree is constructed (Cache hoisting in Split)
+    for cs in ([{"k": "set", "key": "a", "val": 1}, {"k": "cache", "fmt": "c_{{a}}.pkl"}, {"k": "store"},
+                {"k": "set", "key": "b", "val": 2}, {"k": "ucfs"}],
+               [{"k": "cache", "fmt": "c.pkl"}, {"k": "seq", "kind": "Sequence", "c": [{"k": "set", "key": "b", "val": 2}]},
+                {"k": "set", "key": "a", "val": 1}, {"k": "mkf", "fmt": "{{a}}_{{b}}"}]):
+        for kind in ("Sequence", "tuple"):
+            t = {"k": "seq", "kind": "Sequence", "c": [{"k": "split", "c": [{"k": "seq", "kind": kind, "c": copy.deepcopy(cs)}]},
+                                                       {"k": "store"}]}
+            out.append({"tree": t, "flow": None, "variants": [], "precache": True})
+    return out
 
 
 def alias_cases():
@@ -1079,8 +1312,8 @@ def _fill(shape, it):
 def sampled_cases(rng, n, depth, leaves, count):
     """`count` seeded draws from the scope of exhaustive_cases(n, depth, leaves, source=True) with exactly n leaves"""
     shapes = list(_forests(n, depth, [None]))
-    out = []
-    while len(out) < count:
+    made = 0
+    while made < count:
         shape = rng.choice(shapes)
         it = iter([rng.choice(leaves) for _ in range(n)])
         cs = [_fill(t, it) for t in shape]
@@ -1091,30 +1324,31 @@ def sampled_cases(rng, n, depth, leaves, count):
             t = {"k": "seq", "kind": "Source", "c": [{"k": "src"}] + cs}
             flow = []
         if not _renders_dict(t):
-            out.append({"tree": t, "flow": _flow_for(t, flow)})
-    return out
+            made += 1
+            yield {"tree": t, "flow": _flow_for(t, flow)}
 
 
 def gen_cases(ctx):
-    """quick: every tree with <= 2 leaves over the 9-leaf alphabet and 6000 seeded draws from the trees with 3 leaves
-    over the 7-leaf alphabet (depth <= 2, Sequence and Source tops), 4000 random trees of depth <= 3 with causality
-    variants.  thorough: all trees with <= 3 leaves over 8 leaf kinds (the 7 and the mutator) and with <= 2 leaves over all 10,
-    100 000 seeded draws from the trees with 4 leaves over the 10 kinds, 80 000 random trees (memory: the whole case list lives in the parent process)."""
+    """A generator (cases are produced lazily).  quick: the directed families, every tree with <= 2 leaves over the
+    10-leaf alphabet, 6000 seeded draws from the trees with 3 leaves over the 7-leaf alphabet (depth <= 2, Sequence and
+    Source tops), 4000 random trees of depth <= 3 with causality variants.  thorough: all trees with <= 3 leaves over 8
+    leaf kinds (the 7 and the mutator) and with <= 2 leaves over all 10, 60 000 seeded draws from the trees with 4
+    leaves over the 10 kinds, 60 000 random trees."""
     rng = ctx.rng
-    cases = alias_cases()
+    yield from alias_cases()
+    yield from seqtype_cases()
     if ctx.tier == "quick":
-        cases.extend(exhaustive_cases(2, 2, EX_LEAVES + EX_LEAVES_MORE, source=True))
-        cases.extend(sampled_cases(rng, 3, 2, EX_LEAVES, 6000))
+        yield from exhaustive_cases(2, 2, EX_LEAVES + EX_LEAVES_MORE, source=True)
+        yield from sampled_cases(rng, 3, 2, EX_LEAVES, 6000)
         n_rand = 4000
     else:
-        cases.extend(exhaustive_cases(3, 2, EX_LEAVES + EX_LEAVES_MORE[2:], source=True))
-        cases.extend(exhaustive_cases(2, 2, EX_LEAVES + EX_LEAVES_MORE, source=True))
-        cases.extend(sampled_cases(rng, 4, 2, EX_LEAVES + EX_LEAVES_MORE, 100000))
-        n_rand = 80000
+        yield from exhaustive_cases(3, 2, EX_LEAVES + EX_LEAVES_MORE[2:], source=True)
+        yield from exhaustive_cases(2, 2, EX_LEAVES + EX_LEAVES_MORE, source=True)
+        yield from sampled_cases(rng, 4, 2, EX_LEAVES + EX_LEAVES_MORE, 60000)
+        n_rand = 60000
     for i in range(n_rand):
         pformat = (0.0, 0.3, 0.6)[i % 3]
-        cases.append(rand_case(rng, depth=3, pformat=pformat))
-    return cases
+        yield rand_case(rng, depth=3, pformat=pformat)
 
 
 def nontrivial(case, res):
@@ -1150,16 +1384,19 @@ def _shrink_tree(t):
     if "c" in t:
         for i in range(len(t["c"])):
             c = t["c"][i]
-            if c["k"] == "src":
+            if c["k"] in ("src", "fc", "fr") or (t["k"] == "seq" and t["kind"] == "elem"):
                 continue
             yield dict(t, c=t["c"][:i] + t["c"][i + 1:])
         for i, c in enumerate(t["c"]):
-            if t["k"] == "seq" and c["k"] == "seq" and c["kind"] != "Source":
+            if t["k"] == "seq" and c["k"] == "seq" and c["kind"] == "Sequence" and t["kind"] != "elem" \
+                    and not (anchor_of(t) in ("fc", "fr") and not any(x["k"] == anchor_of(t) for x in t["c"][:i])):
                 yield dict(t, c=t["c"][:i] + c["c"] + t["c"][i + 1:])
             for s in _shrink_tree(c):
                 yield dict(t, c=t["c"][:i] + [s] + t["c"][i + 1:])
     elif t["k"] == "set" and isinstance(t["val"], str) and "{" in t["val"]:
         yield dict(t, val=1)
+    elif t["k"] == "mkf" and any(t.get(k) for k in ("dirname", "fileext", "prefix", "suffix", "overwrite")):
+        yield {"k": "mkf", "fmt": t.get("fmt") or "plain"}
 
 
 def shrink(case):
@@ -1177,3 +1414,5 @@ def shrink(case):
         yield dict(case, flow=case["flow"][:-1])
     if case.get("flow") is not None:
         yield dict(case, flow=None)
+    if case.get("precache"):
+        yield dict(case, precache=False)
